@@ -1,7 +1,7 @@
 From CDD Require Import PyStr Val.
-From CDD Require CstRun.
+From CDD Require CstRun AdhocRun GenRun.
 
-Definition tables : list (string * (val -> val)) := CstRun.table.
+Definition tables : list (string * (val -> val)) := CstRun.table ++ AdhocRun.table ++ GenRun.table.
 
 Definition dispatch (fn : str) (a : val) : val :=
   match lookup_fn fn tables with
